@@ -41,6 +41,18 @@ def generate(rng, tier):
             ast = [['split', pred, [['tap', 1], ['ignore'], ['to_list']]], ['ignore']]
             trace = with_errors(rng, trace)
         cases.append({'ast': ast, 'trace': trace, 'pred': pred, 'ctx': ctx})
+    for _ in range({'quick': 2, 'thorough': 20, 'search': 0}[tier]):
+        # scale, strings: thousands of distinct predicate values that are strings built at run time, on interleaved keys
+        pred = ['comp', ['floordiv', rng.choice([2, 3])], ['tostr']]
+        n = rng.choice([2300, 3500])
+        ka, kb = [rng.choice([0, 2])], [rng.choice([5, 300])]
+        trace = [['c', ka], ['c', kb]]
+        for i in range(n):
+            trace.append(['n', ka, enc(i)])
+            if i % rng.choice([1, 2, 3]) == 0:
+                trace.append(['n', kb, enc(100000 + i)])
+        trace += [['d', ka], ['d', kb]]
+        cases.append({'ast': [['split', pred, [['tap', 1], ['count', 1]]]], 'trace': trace, 'pred': pred, 'ctx': 'top', 'scale': True})
     for _ in range({'quick': 8, 'thorough': 200, 'search': 2}[tier]):
         # scale: hundreds of segments per key, segments of hundreds of items, hundreds of live keys
         pred = rng.choice([['id'], ['floordiv', 50], ['floordiv', 2], ['mod', 2], ['const', enc(1)], ['floordiv', 300]])
